@@ -453,3 +453,18 @@ Proof. exact logger_blind. Qed.
 Lemma main_drawing_call_depends_on_state_refuted :
   exists (p : prog nat) s s', effects p s = 1 /\ fst (run p s) <> fst (run p s').
 Proof. exact draw_depends_on_state_refuted. Qed.
+
+Lemma main_isomap_pre_f23_equivariant : forall F (Fo : FieldOps F) (Ff : IsField F) n p q c (G : mat F),
+  (is_bij n p q -> meq n n (isomap_matrix_pre_f23 n (pact q G)) (pact q (isomap_matrix_pre_f23 n G))) /\
+  (of_nat n <> 0%F ->
+   meq n n (isomap_matrix_pre_f23 n (mscale c G)) (mscale (c * c)%F (isomap_matrix_pre_f23 n G))) /\
+  (forall LG, isomap_matrix_pre_f23_exec n LG = mtab n n (isomap_matrix_pre_f23 n (mof LG))).
+Proof.
+  intros F Fo Ff n p q c G. split; [|split].
+  - exact (@isomap_pre_f23_perm F Fo Ff n p q G).
+  - exact (@isomap_pre_f23_scale F Fo Ff n c G).
+  - intros LG. unfold isomap_matrix_pre_f23_exec. apply mtab_ext. intros i j Hi Hj.
+    unfold isomap_matrix_pre_f23. rewrite !vof_vtab by assumption.
+    rewrite <- (center_matrix_meq n _ _ (mof_mtab_meq n n (geo_sq (mof LG))) i j Hi Hj).
+    reflexivity.
+Qed.
